@@ -50,10 +50,11 @@ def handle (j : Json) : Json :=
   -- by the kernel-checked `verdict_same_in_all_modes` (Props/C12.lean); the driver does not compute the event tree twice
   let ff := if inj then verdictIn env .failfast else m
   let envS := envSpecOf j
-  -- the property under injection: a default below a `not` must not influence anything, so a schema whose defaults all live
-  -- below a `not` (`!hasOwnDflt`) is judged as in plain validation: Sat of the value handed in. A schema that can write
-  -- into the caller's value has no verdict-level spec of its own here (C12 states what the value is afterwards).
-  let ownD := inj && s.hasOwnDflt
+  -- the property under injection: a default below a `not` must not influence anything outside that `not`, so a schema whose
+  -- defaults all live below `not`s (`!hasOwnDflt`) whose own verdict a written default cannot change (`notsNeutral`) is judged
+  -- as in plain validation: Sat of the value handed in. Other schemas have no verdict-level spec of their own here
+  -- (spec := model; C12 states what the value is afterwards).
+  let ownD := inj && (s.hasOwnDflt || !s.notsNeutral)
   let sp := if ownD then m else satB envS s v
   let differs := hasGorx j && !env.patOff && s.pats.any patternTranslationDiffers
   let pre := (getArr j "pre").map (fun st => let e := { env with regex := regexOf st }
@@ -66,7 +67,7 @@ def handle (j : Json) : Json :=
     (if env.patOff then ["opt.patOff"] else []) ++
     (if env.dfl then ["opt.defaultsSet"] else []) ++
     (if inj && s.dfltUnderNot then ["dflt.under.not"] else []) ++
-    (if inj && s.dfltUnderNot && !ownD then ["dflt.only.under.not"] else []) ++
+    (if inj && s.dfltUnderNot && !ownD then ["dflt.only.under.not.neutral"] else []) ++
     (if ownD then ["dflt.own.spec-is-model"] else []) ++
     (if pre.isEmpty then [] else ["history.compiler"]) ++
     (if s.pats.any (fun p => intoGo p != p) then ["pattern.translated"] else []) ++
